@@ -120,7 +120,12 @@ func genC13(t *rapid.T) C13Case {
 		if trailing != "" {
 			b.WriteString(" -- " + trailing)
 		}
-		b.WriteString("\n\n")
+		// the next declaration (with its comments) follows directly or after a blank line
+		if rapid.IntRange(0, 2).Draw(t, "adjacent") == 0 {
+			b.WriteString("\n")
+		} else {
+			b.WriteString("\n\n")
+		}
 		switch {
 		case trailing != "":
 			d.Comment = []string{trailing}
